@@ -12,6 +12,7 @@ import (
 	"os"
 	"sort"
 	"strings"
+	"unicode/utf8"
 
 	pg_query "github.com/pganalyze/pg_query_go/v4"
 )
@@ -102,10 +103,10 @@ func columnName(v interface{}) string {
 		if s, ok := fm["String"].(map[string]interface{}); ok {
 			parts = append(parts, fmt.Sprint(s["sval"]))
 		} else {
-			parts = append(parts, "?")
+			parts = append(parts, "\x00not-a-name")
 		}
 	}
-	return strings.Join(parts, ".")
+	return strings.Join(parts, "\x00.")
 }
 
 // exprOp: "KIND:opname" of an A_Expr
@@ -167,6 +168,11 @@ func (w *walker) constant(v interface{}) {
 
 func handle(sql string) resp {
 	r := resp{}
+	// a server with encoding UTF8 verifies the query text before parsing it; a NUL byte ends it
+	if !utf8.ValidString(sql) || strings.Contains(sql, "\x00") {
+		r.Error = "query text is not valid UTF-8 or contains a NUL byte"
+		return r
+	}
 	full := "SELECT 1 FROM t WHERE (" + rewriteParams(sql) + ")"
 	js, err := pg_query.ParseToJSON(full)
 	if err != nil {
@@ -224,7 +230,7 @@ func handle(sql string) resp {
 		}
 	}
 	for _, c := range r.Columns {
-		if strings.Contains(c, ".") || c == "?" {
+		if strings.Contains(c, "\x00") { // qualified name, star, or another non-name field
 			r.Confined = false
 		}
 	}
